@@ -874,6 +874,7 @@ func collectStrings(pl *core.Payload, ics *world.ICS20) (b []string, i []string)
 
 type worldRunner struct {
 	pinFirst bool // the next history begins with the witness of open finding 17
+	lastOps  []world.Op // C19: the previous case's history, replayed on a discarded branch between two replays
 	swap bool // the swap controller is registered on the instrumented instance
 	w   *world.W
 	a   actors
